@@ -58,6 +58,27 @@ def strs_of(repl):
 def to_replacements(repl, mode):
     if mode == 'attrs':
         return SimpleNamespace(**{k: v for k, v in repl.items()})
+    if mode == 'falsy_attrs':
+        # a settings object that says False in a truth test (it has a length: the number of its *overrides*, none) and
+        # still defines every name as an attribute
+        cls = type('Overrides', (), dict({k: v for k, v in repl.items()}, __len__=lambda self: 0))
+        return cls()
+    if mode == 'falsy_mapping':
+        # a mapping that keeps its entries aside (like taskchain's own Config): its dict part is empty, `in` and [] work
+        class Vars(dict):
+            def __init__(self, entries):
+                super().__init__()
+                self.entries = dict(entries)
+
+            def __contains__(self, k):
+                return k in self.entries
+
+            def __getitem__(self, k):
+                return self.entries[k]
+        return Vars(repl)
+    if mode == 'config_object':
+        from taskchain import Config
+        return Config(name='variables', data=dict(repl))
     if mode == 'class_attrs':
         # the usual settings object: values are class attributes (also inherited ones) and properties
         items = list(repl.items())
@@ -164,6 +185,7 @@ class Placeholders(Suite):
     def corpus(self):
         return [
             dict(obj='{X}/f', repl={'X': 'v'}, repl2={'X': 'w'}, mode='dict'),
+            dict(obj=[''.join('{X}-{U%d}/' % i for i in range(12)), '{X}' * 17, '{X}' * 16 + '{Y}'], repl={'X': 'v', 'Y': 'w'}, repl2={'X': 'w'}, mode='dict'),
             dict(obj=['{X}{X}', {'k': ['a{Y}b', '{Z}', 1, None]}], repl={'X': 'v', 'Y': '{X}'}, repl2={'X': 'w'},
                  mode='dict'),
             dict(obj='{a\n}{X}', repl={'X': 1}, repl2={}, mode='attrs'),
@@ -255,7 +277,11 @@ class ConfigData(Suite):
 
     def corpus(self):
         return [dict(data={'p': '{X}/a', 'uses': ['{X}/c.json as n'], 'q': [1, '{Y}']}, ctx={'r': '{X}', 'p': 'z{Y}'},
-                     repl={'X': 'dir', 'Y': 'w'}, mode='dict')]
+                     repl={'X': 'dir', 'Y': 'w'}, mode='dict')] + \
+               [dict(data={'p': '{X}/a', 'q': [1, '{Y}', {'k': 'a{X}b{Z}'}]}, ctx={'r': '{X}'}, repl={'X': 'dir', 'Y': 'w'}, mode=m)
+                for m in ('falsy_attrs', 'falsy_mapping', 'config_object')] + \
+               [dict(data={'cmd': ' '.join('--o%d={V%d}' % (i, i % 5) for i in range(n)), 'p': ['{V1}' * n]}, ctx=None,
+                     repl={'V0': 'a', 'V1': 'b', 'V3': 3}, mode='dict') for n in (16, 17, 40)]
 
     def gen(self, rng, tier):
         out = []
